@@ -56,7 +56,9 @@ func TestExpiryBounds(t *testing.T) {
 	ttls := []time.Duration{
 		1, 3, 17, 999, time.Microsecond, 1500 * time.Microsecond, time.Millisecond, 250 * time.Millisecond, time.Second,
 		90 * time.Second, 5 * time.Minute, time.Hour, 36 * time.Hour, 30 * 24 * time.Hour, 365 * 24 * time.Hour,
-		10 * 365 * 24 * time.Hour, 40 * 365 * 24 * time.Hour, 100 * 365 * 24 * time.Hour, 150 * 365 * 24 * time.Hour, // beyond ~174 years t+T(1+J/2) itself leaves the int64 nanosecond range
+		10 * 365 * 24 * time.Hour, 40 * 365 * 24 * time.Hour,
+		// beyond 2^53 ns (104 days) not every duration is a float64: these are not
+		200*24*time.Hour + 1, 3*365*24*time.Hour + 12345, 10*365*24*time.Hour + 7, 100*365*24*time.Hour + 333, 100 * 365 * 24 * time.Hour, 150 * 365 * 24 * time.Hour, // beyond ~174 years t+T(1+J/2) itself leaves the int64 nanosecond range
 	}
 	jitters := []float64{-1, 0, 0.01, 0.25, 0.5, 1}
 
